@@ -112,7 +112,7 @@ def materialise(L, ty, name, steps):
 def h_seq(L, T, ty, name, steps):
     I = L.I
     tyb, nm, st = materialise(L, ty, name, steps)
-    req = {'op': 'build', 'T': KINDS[T][1], 'type': SymStr(tyb), 'name': SymStr(nm), 'steps': [[m] + [SymStr(a) for a in args] for m, *args in st]}
+    req = {'op': 'build_typed' if T == 'Purl' else 'build', 'T': KINDS[T][1], 'type': SymStr(tyb), 'name': SymStr(nm), 'steps': [[m] + [SymStr(a) for a in args] for m, *args in st]}
     L.expect_native(req, {})
     R = RefB(tyb, nm)
     for m, *args in st:
@@ -288,6 +288,11 @@ def queries(tier):
         addseq('String', 't', 'n', [('with_package_type', H(n, 't'))])
     for ty2 in ('cargo', 'gem', 'golang', 'nuget'):
         addseq('Purl', ty2, H(2), [('with_namespace', H(1, 'g'))])
+    # name rules on names mixing ASCII and non-ASCII letters (3-4 bytes)
+    for ty2 in ('nuget', 'pypi'):
+        for n in ((3, 4) if th else (3,)):
+            addseq('Purl', ty2, H(n), [])
+            addseq('Purl', ty2, 'n', [('with_name', H(n))])
     # commutation of calls on different fields
     ops = [('with_namespace', H(1, 'a')), ('with_name', H(1, 'b')), ('with_version', H(1, 'c')), ('with_subpath', H(1, 'd')),
            ('with_qualifier', H(1, 'k'), H(1, 'v'))]
@@ -382,6 +387,12 @@ def confirm(v, resp):
         return 'maven PURL without namespace built'
     if (hx(o['ver']) or b'') != f['ver']:
         return 'version accessor differs from what was set'
+    if T == 'Purl' and 'expect_lower' in resp and not any(st[0] == 'with_package_type' for st in req['steps']):
+        want = hx(resp['expect_lower']) if f['type'] == b'nuget' else hx(resp['expect_pypi']) if f['type'] == b'pypi' else f['name']
+        if hx(o['name']) != want:
+            return '%s name %r comes out as %r, the type\'s rule gives %r' % (f['type'].decode(), f['name'].decode('utf8', 'replace'), hx(o['name']).decode('utf8', 'replace'), want.decode('utf8', 'replace'))
+    elif T != 'Purl' and hx(o['name']) != f['name']:
+        return 'name accessor %r differs from what was set %r' % (hx(o['name']), f['name'])
     if norm(hx(o['ns']), False) != norm(f['ns'], False) or norm(hx(o['sub']), True) != norm(f['sub'], True):
         return 'namespace / subpath accessor differs from what was set'
     wq = sorted((k, x) for k, x in q.items() if x)
